@@ -8,7 +8,7 @@ LEVEL = 'model_checking'
 RULE = ('the real connect() against a device whose every decision is a choice point, enumerated completely: keys 0..4; first reply {CNXN, AUTH(TOKEN), AUTH(arg0 != TOKEN), silence}; '
         'after each signature {fresh token, CNXN, AUTH(non-token), silence}; after the public key {CNXN after a delay shorter than the auth timeout but longer than the transport timeout, '
         'CNXN after the auth timeout, never}; CNXN maxdata {4096, 256 KiB, 1 MiB}; <=2 stray packets of a dead stream before any awaited reply; callback {none, recording, raising}; '
-        'str and bytes public keys; then a second connect() on the same object under every outcome of the first (keys <= 2). Oracle = reference handshake spec: exact expected host packet '
+        'str and bytes public keys; auth_timeout_s None (the wait for the user has no limit); device maxdata up to 4 MiB with a following push whose largest WRTE must exceed what the next smaller announcement would allow; then a second connect() on the same object under every outcome of the first (keys <= 2). Oracle = reference handshake spec: exact expected host packet '
         'sequence (CNXN first, signature i by key i over the most recent token, each key once, none after acceptance, callback exactly once and only before the public key of key 0 + NUL), '
         'return/exception type, `available`, adopted maxdata (0 < max_chunk_size <= min(64 KiB, maxdata); a following push never exceeds maxdata per WRTE and exceeds 4 KiB when the device announced >= 64 KiB). States = (keys, signatures seen, last decision); non-trivial = the '
         'device demanded authentication; distinct = distinct decision sequences x configuration')
@@ -17,7 +17,7 @@ TT, RT, AT = 1.0, 2.0, 5.0
 TIMEOUTS = ('AdbTimeoutError', 'TcpTimeoutException')
 
 
-def reference(nkeys, log, pub_bytes, cb):
+def reference(nkeys, log, pub_bytes, cb, at_none=False):
     """Expected host AUTH packets and outcome for the decision log [(key, value), ...] of one connect()."""
     it = iter(log)
     exp = []           # expected (arg0, payload-kind)
@@ -44,10 +44,13 @@ def reference(nkeys, log, pub_bytes, cb):
         return exp, 'RuntimeError', 1
     exp.append(('pub', 0))
     k, v = next(it)
+    if at_none:
+        # auth_timeout_s=None: wait without limit for the user to accept the key
+        return exp, ('ok' if v in ('cnxn', 'late') else 'blocked'), (1 if cb else 0)
     return exp, ('ok' if v == 'cnxn' else 'timeout'), (1 if cb else 0)
 
 
-def one_connect(s, nkeys, cb, pub_bytes, strays, maxdata, viol, tag, kform=None):
+def one_connect(s, nkeys, cb, pub_bytes, strays, maxdata, viol, tag, kform=None, at=AT):
     env = s.env
     keys = [StubSigner(i, pub_bytes) for i in range(nkeys)]
     calls = []
@@ -57,7 +60,7 @@ def one_connect(s, nkeys, cb, pub_bytes, strays, maxdata, viol, tag, kform=None)
         if cb == 'raise':
             raise RuntimeError('callback failure')
     mark = len(env.events)
-    kw = {'transport_timeout_s': TT, 'read_timeout_s': RT, 'auth_timeout_s': AT,
+    kw = {'transport_timeout_s': TT, 'read_timeout_s': RT, 'auth_timeout_s': at,
           '_sim': {'auth': {'first': 'choose', 'sig': 'choose', 'pub': 'choose', 'strays': strays, 'maxdata': maxdata, 'pub_delay': 2.5, 'late_delay': 7.0}}}
     if kform == 'tuple':
         kw['rsa_keys'] = tuple(keys)
@@ -72,7 +75,7 @@ def one_connect(s, nkeys, cb, pub_bytes, strays, maxdata, viol, tag, kform=None)
     log = [(k, v) for k, v in (auth.log if auth else [])]
     hp = [p for w, p in env.events[mark:] if w == 'H']
     try:
-        exp, outcome, ncb = reference(nkeys, log, pub_bytes, cb)
+        exp, outcome, ncb = reference(nkeys, log, pub_bytes, cb, at is None)
     except StopIteration:
         # the device model stopped deciding before the handshake spec was through: it never recognised a packet the host owed it
         viol.append({'msg': '%s: the device received no well-formed packet where the handshake spec expects the next one (decisions so far %r, issues %r, connect() gave %r)' % (tag, log, env.issues[:2], r[:2])})
@@ -109,6 +112,9 @@ def one_connect(s, nkeys, cb, pub_bytes, strays, maxdata, viol, tag, kform=None)
     if outcome == 'ok':
         if r != ('ok', True):
             viol.append({'msg': '%s: device accepted (decisions %r) but connect() gave %r' % (tag, log, r)})
+    elif outcome == 'blocked':
+        if r[0] != 'hang' and (r[0] != 'exc' or r[1] not in TIMEOUTS):
+            viol.append({'msg': '%s: device never accepts (decisions %r) and auth_timeout_s is None, but connect() gave %r' % (tag, log, r[:2])})
     elif outcome == 'timeout':
         if r[0] != 'exc' or r[1] not in TIMEOUTS:
             viol.append({'msg': '%s: device never accepted in time (decisions %r) but connect() gave %r' % (tag, log, r[:2])})
@@ -130,7 +136,7 @@ def run_one(params, ch):
     s = Session(ch, {'maxdata': maxdata}, twin=params['twin'])
     try:
         viol = []
-        r, log, states = one_connect(s, nkeys, cb, params['pub_bytes'], params['strays'], maxdata, viol, 'connect #1', params.get('kform'))
+        r, log, states = one_connect(s, nkeys, cb, params['pub_bytes'], params['strays'], maxdata, viol, 'connect #1', params.get('kform'), None if params.get('at_none') else AT)
         outcome = [r[:2], tuple(log)]
         if params.get('second'):
             r2, log2, st2 = one_connect(s, nkeys, cb, params['pub_bytes'], False, maxdata, viol, 'connect #2 (after %r)' % (r[:2],), params.get('kform'))
@@ -140,14 +146,19 @@ def run_one(params, ch):
         if r == ('ok', True) and params.get('push'):
             # adoption of the CNXN's maxdata, judged by what a following push puts on the wire: never more than maxdata per WRTE, and
             # (for a device that announces >= 64 KiB) more than the 4 KiB a host would use had it ignored the announcement
-            pr = s.op(('push', ('bytes', b'z' * 200000), '/g', {'mtime': 3}))
+            ladder = [4096, 65536, 256 * 1024, 1024 * 1024, 4 * 1024 * 1024]
+            below = max([x for x in ladder if x < maxdata] or [0])
+            psize = min(maxdata, 3 * 1024 * 1024) + 1000 if (maxdata >= 1024 * 1024 and nkeys <= 1) else 200000
+            pr = s.op(('push', ('bytes', b'z' * psize), '/g', {'mtime': 3}))
             if pr != ('ok', None):
                 viol.append({'msg': 'push after the handshake gave %r' % (pr,)})
             sizes = [len(p.data) for w, p in s.env.events if w == 'H' and p.cmd == b'WRTE']
             if any(z > maxdata for z in sizes):
                 viol.append({'msg': 'push after CNXN(maxdata=%d) sent WRTE payloads of up to %d bytes' % (maxdata, max(sizes))})
-            if maxdata >= 65536 and sizes and max(sizes) <= 4096:
-                viol.append({'msg': 'push after CNXN(maxdata=%d) never sent more than %d bytes per WRTE: the announced maxdata was not adopted' % (maxdata, max(sizes))})
+            floor = below if psize > 200000 else (4096 if maxdata >= 65536 else 0)
+            if floor and sizes and max(sizes) <= floor:
+                viol.append({'msg': 'push of %d bytes after CNXN(maxdata=%d) never sent more than %d bytes per WRTE -- what a host that had adopted only %d would send: the announced maxdata was not adopted'
+                                    % (psize, maxdata, max(sizes), floor)})
         viol += [{'msg': '%s: %s' % i} for i in s.env.issues]
         demanded = any(v != 'cnxn' for k, v in log[:1])
         return {'outcome': tuple(outcome), 'viol': viol, 'states': states, 'trans': len(states),
@@ -163,6 +174,8 @@ def parts(tier):
     sc = [{'nkeys': n, 'cb': cb, 'maxdata': md, 'twin': t, 'pub_bytes': pb, 'strays': False, 'push': True}
           for n in range(0, kmax + 1) for cb in (None, 'record', 'raise') for md in (4096, 256 * 1024, 1024 * 1024) for t in twins for pb in (False, True, 'nonascii')
           if (md == 1024 * 1024 or n <= 2) and (not pb or n in (1, 2))]
+    sc += [dict(x, at_none=True) for x in sc if x['maxdata'] == 1024 * 1024 and not x['pub_bytes'] and 1 <= x['nkeys'] <= 2 and x['cb'] != 'raise']     # auth_timeout_s=None
+    sc += [dict(x, maxdata=4 * 1024 * 1024) for x in sc if x['maxdata'] == 1024 * 1024 and not x['pub_bytes'] and x['nkeys'] <= 1 and not x.get('at_none')]   # a device announcing more than the host's own 1 MiB
     # the key collection may be omitted, None, or an empty/non-empty list or tuple: "challenged without keys" covers every empty form
     sc += [dict(x, kform=kf) for x in sc if x['maxdata'] == 1024 * 1024 and not x['pub_bytes'] and x['nkeys'] <= 2
            for kf in (('none', 'list', 'tuple') if x['nkeys'] == 0 else ('tuple',))]
